@@ -831,6 +831,9 @@ def var(a, axis=None, dtype=None, out=None, *args, **kwargs):
     )
     if getattr(out, "units", None) is not None:
         out.units = ret_units
+        # hand back the out= object itself, like NumPy: np.nanstd goes on to
+        # take the square root in place of what it gets back
+        return out
     return _wrap_out_result(res, ret_units)
 
 
